@@ -107,6 +107,16 @@ CLAIMS: dict[str, dict[str, str]] = {
         "note": NOTE,
         "technique": "path-sensitive operator-protocol and attribute-under-guard analysis, stdlib-reference sibling check",
     },
+    "C11": {
+        "text": "Static rule checking: inventory of the native methods that must be overridden (those whose C "
+                "implementation returns base-class objects) and a return-through-pendulum-constructor rule on every "
+                "path of each override; replace() signature order against the interpreter's own reference signature "
+                "and keep-when-omitted semantics per field incl. fold; reconstruction fidelity of date()/time()/"
+                "int_timestamp/Date and Time constructors; __eq__/__hash__ pairing and str delegation. Value equality "
+                "of inherited accessors is the C base class at run time and not claimed.",
+        "note": NOTE,
+        "technique": "override inventory + return-constructor rule, signature LSP vs Lib/_pydatetime.py, recon fidelity",
+    },
 }
 
 NOT_APPLICABLE: dict[str, str] = {}
